@@ -276,3 +276,269 @@ Proof.
   pose proof (plan_diff_outside c k Hw Hg) as HF. apply Forall_app in HF. destruct HF as [HF1 HF2].
   rewrite (exec_outside _ _ _ HF2). apply exec_outside. exact HF1.
 Qed.
+
+(* ---------- containment in the direct path ---------- *)
+Lemma allowed_under_out : forall c q, under (out_pkg c) q = true -> allowed c (root c ++ q) = true.
+Proof.
+  intros c q H. unfold allowed, spec_out. rewrite under_app_inv, H. reflexivity.
+Qed.
+Lemma allowed_under_core : forall c q, under (core_fqn c) q = true -> allowed c (root c ++ q) = true.
+Proof.
+  intros c q H. unfold allowed, spec_core. rewrite (under_app_inv (root c) (core_fqn c) q), H.
+  rewrite orb_true_r. reflexivity.
+Qed.
+
+Lemma allowed_anc : forall c d q, (d = out_pkg c \/ d = core_fqn c) -> In q (prefixes d) ->
+  allowed c (root c ++ q) = true /\ allowed c (root c ++ q ++ [s_init]) = true.
+Proof.
+  intros c d q Hd Hq.
+  assert (Hin : In (root c ++ q) (ancestors c (out_pkg c) ++ ancestors c (core_fqn c))).
+  { apply in_or_app. destruct Hd as [Hd|Hd]; subst d; [left|right];
+      unfold ancestors; apply in_map_iff; exists q; auto. }
+  split; unfold allowed; apply orb_true_iff; right; apply existsb_exists; exists (root c ++ q); (split; [exact Hin|]).
+  - rewrite path_eqb_refl. reflexivity.
+  - rewrite <- app_assoc. rewrite path_eqb_refl. apply orb_true_r.
+Qed.
+
+Lemma allowed_under_d : forall c d q, (d = out_pkg c \/ d = core_fqn c) -> under d q = true -> allowed c (root c ++ q) = true.
+Proof. intros c d q [Hd|Hd] H; subst d; [apply allowed_under_out | apply allowed_under_core]; exact H. Qed.
+
+Definition rel_ok (c : config) (op : fs_op) : bool :=
+  match op with
+  | Write q _ | WriteIfAbsent q _ | Remove q => allowed c (root c ++ q)
+  | Mkdirs q => forallb (fun q' => allowed c (root c ++ q')) (prefixes q)
+  | Rmtree q => under (out_pkg c) q || under (core_fqn c) q
+  end.
+
+Lemma prefixes_allowed : forall c d x, (d = out_pkg c \/ d = core_fqn c) ->
+  forallb (fun q' => allowed c (root c ++ q')) (prefixes (d ++ x)) = true.
+Proof.
+  intros c d x Hd. apply forallb_forall. intros q Hq. apply In_prefixes in Hq. destruct Hq as [Hn Hu].
+  destruct (under_comparable q d (d ++ x) Hu (under_app d x)) as [C|C].
+  - apply (allowed_anc c d q Hd). apply In_prefixes. auto.
+  - apply (allowed_under_d c d q Hd C).
+Qed.
+
+Lemma rel_ok_at : forall c d op, (d = out_pkg c \/ d = core_fqn c) -> rel_ok c (rebase d op) = true.
+Proof.
+  intros c d op Hd. destruct op as [p t|p t|p|p|p]; simpl;
+    try (apply (allowed_under_d c d _ Hd); apply under_app).
+  - apply prefixes_allowed. exact Hd.
+  - destruct Hd as [Hd|Hd]; subst d; rewrite under_app; [reflexivity | apply orb_true_r].
+Qed.
+
+Lemma rel_ok_map_at : forall c d ops, (d = out_pkg c \/ d = core_fqn c) ->
+  forallb (rel_ok c) (map (rebase d) ops) = true.
+Proof.
+  intros c d ops Hd. apply forallb_forall. intros op Hin. apply in_map_iff in Hin.
+  destruct Hin as [op' [E _]]. subst. apply rel_ok_at. exact Hd.
+Qed.
+
+Lemma rel_ok_mkdirs_parent : forall c d, (d = out_pkg c \/ d = core_fqn c) -> rel_ok c (Mkdirs (removelast d)) = true.
+Proof.
+  intros c d Hd. simpl. apply forallb_forall. intros q Hq. apply In_prefixes in Hq. destruct Hq as [Hn Hu].
+  apply (allowed_anc c d q Hd). apply In_prefixes. split; [exact Hn|].
+  eapply under_trans; [exact Hu | apply under_removelast].
+Qed.
+
+Lemma rel_ok_mkdirs_self : forall c d, (d = out_pkg c \/ d = core_fqn c) -> rel_ok c (Mkdirs d) = true.
+Proof.
+  intros c d Hd. simpl. rewrite <- (app_nil_r d) at 1. apply prefixes_allowed. exact Hd.
+Qed.
+
+Lemma rel_ok_init_chain : forall c d, (d = out_pkg c \/ d = core_fqn c) -> forallb (rel_ok c) (init_chain d) = true.
+Proof.
+  intros c d Hd. unfold init_chain. apply forallb_forall. intros op Hin. apply in_map_iff in Hin.
+  destruct Hin as [q [E Hq]]. subst. simpl. apply in_rev in Hq. apply (allowed_anc c d q Hd Hq).
+Qed.
+
+Lemma filter_nonempty_id : forall l, forallb nonempty l = true -> filter nonempty l = l.
+Proof.
+  induction l as [|x l IH]; intro H; simpl in *; [reflexivity|].
+  apply andb_true_iff in H. destruct H as [H1 H2]. rewrite H1. f_equal. apply IH. exact H2.
+Qed.
+
+Lemma wf_pkg_rel : forall c, wf_pkg c = true -> rel_out c = out_pkg c /\ rel_core c = core_fqn c.
+Proof.
+  intros c H. unfold wf_pkg in H. repeat (apply andb_true_iff in H; destruct H as [H ?]).
+  unfold rel_out, rel_core, rel_of. split; apply filter_nonempty_id; assumption.
+Qed.
+
+Lemma rel_effects_ok : forall c st, wf_pkg c = true -> forallb (rel_ok c) (rel_effects c false st) = true.
+Proof.
+  intros c st Hwf. destruct (wf_pkg_rel c Hwf) as [Ho Hk].
+  assert (HO : out_pkg c = out_pkg c \/ out_pkg c = core_fqn c) by (left; reflexivity).
+  assert (HK : core_fqn c = out_pkg c \/ core_fqn c = core_fqn c) by (right; reflexivity).
+  destruct st; unfold rel_effects; rewrite ?Ho, ?Hk; try reflexivity;
+    try (apply rel_ok_map_at; assumption).
+  - (* Setup *)
+    cbn [negb]. rewrite !forallb_app. repeat (apply andb_true_iff; split).
+    + simpl. rewrite under_refl. reflexivity.
+    + apply rel_ok_mkdirs_parent. exact HO.
+    + apply rel_ok_mkdirs_self. exact HO.
+    + reflexivity.
+    + destruct (path_eqb (core_fqn c) (out_pkg c)); [reflexivity|].
+      cbn [forallb]. rewrite (rel_ok_mkdirs_parent c _ HK), (rel_ok_mkdirs_self c _ HK). reflexivity.
+    + apply rel_ok_init_chain. exact HO.
+    + destruct (core_str_inside_out c); [reflexivity | apply rel_ok_init_chain; exact HK].
+  - (* RichInit *)
+    destruct (core_pkg c); [|reflexivity]. cbn [forallb]. rewrite andb_true_r.
+    change (Write (out_pkg c ++ [s_init]) 0) with (rebase (out_pkg c) (Write [s_init] 0)).
+    apply rel_ok_at. exact HO.
+Qed.
+
+Lemma sunder_split : forall r p, sunder r p = true -> exists x, p = r ++ x /\ x <> [].
+Proof.
+  intros r p H. unfold sunder in H. apply andb_true_iff in H. destruct H as [Hu Hn].
+  destruct (under_exists r p Hu) as [x Hx]. exists x. split; [exact Hx|].
+  intro E. subst x. rewrite app_nil_r in Hx. subst p. rewrite path_eqb_refl in Hn. discriminate.
+Qed.
+
+Lemma touched_ok : forall c s op p, rel_ok c op = true ->
+  In p (op_touched s (rebase (root c) op)) -> sunder (root c) p = true -> allowed c p = true.
+Proof.
+  intros c s op p Hok Hin Hs. destruct op as [q t|q t|q|q|q]; simpl in *.
+  - destruct Hin as [Hin|[]]. subst. exact Hok.
+  - destruct (exists_b s (root c ++ q)); [contradiction|]. destruct Hin as [Hin|[]]. subst. exact Hok.
+  - destruct Hin as [Hin|[]]. subst. exact Hok.
+  - apply filter_In in Hin. destruct Hin as [Hin _]. apply In_prefixes in Hin. destruct Hin as [_ Hu].
+    destruct (sunder_split _ _ Hs) as [x [Hx Hn]]. subst p. rewrite under_app_inv in Hu.
+    rewrite forallb_forall in Hok. apply Hok. apply In_prefixes. auto.
+  - apply in_map_iff in Hin. destruct Hin as [[p' e] [Hp Hin]]. simpl in Hp. subst p'.
+    apply filter_In in Hin. destruct Hin as [_ Hu]. simpl in Hu.
+    destruct (under_exists _ _ Hu) as [y Hy]. subst p. rewrite <- app_assoc.
+    apply orb_true_iff in Hok. destruct Hok as [Hok|Hok].
+    + apply allowed_under_out. eapply under_trans; [exact Hok | apply under_app].
+    + apply allowed_under_core. eapply under_trans; [exact Hok | apply under_app].
+Qed.
+
+(* an absolute operation of the direct path: either outside the root, or a well-placed relative one *)
+Definition abs_ok (c : config) (op : fs_op) : Prop :=
+  op_outside (root c) op \/ exists rop, op = rebase (root c) rop /\ rel_ok c rop = true.
+
+Lemma effects_direct_ok : forall c st, wf_pkg c = true -> guard_F10b c = true ->
+  In st (stages false (post c)) -> Forall (abs_ok c) (effects c false st).
+Proof.
+  intros c st Hwf Hg Hin.
+  assert (Hgen : Forall (abs_ok c) (map (rebase (root c)) (rel_effects c false st))).
+  { apply Forall_forall. intros op Hop. apply in_map_iff in Hop. destruct Hop as [rop [E Hr]]. subst.
+    right. exists rop. split; [reflexivity|].
+    pose proof (rel_effects_ok c st Hwf) as H. rewrite forallb_forall in H. apply H. exact Hr. }
+  destruct st; try exact Hgen.
+  simpl. constructor; [|constructor]. left. simpl. apply guard_F10b_post; [exact Hg|].
+  eapply Post_in_stages. exact Hin.
+Qed.
+
+Lemma touched_plan_ok : forall c pl s p, Forall (fun so => abs_ok c (snd so)) pl ->
+  In p (touched s pl) -> sunder (root c) p = true -> allowed c p = true.
+Proof.
+  intros c pl. induction pl as [|[st op] pl IH]; intros s p H Hin Hs; simpl in *; [contradiction|].
+  inversion H as [|? ? H1 H2]; subst. apply in_app_or in Hin. destruct Hin as [Hin|Hin].
+  - simpl in H1. destruct H1 as [Ho|[rop [E Hr]]].
+    + pose proof (touched_outside _ _ _ _ Ho Hin) as Hu. unfold sunder in Hs. rewrite Hu in Hs. discriminate.
+    + subst op. eapply touched_ok; eauto.
+  - eapply IH; eauto.
+Qed.
+
+(* C10_contained *)
+Theorem contained : forall c k s p,
+  wf_pkg c = true -> wf_tmp c = true -> guard_F10b c = true ->
+  In p (touched s (plan c k s)) -> sunder (root c) p = true -> allowed c p = true.
+Proof.
+  intros c k s p Hwf Hw Hg Hin Hs. unfold plan in Hin. destruct (diff_mode c s) eqn:Hd.
+  - pose proof (touched_all_outside _ _ _ _ (plan_diff_outside c k Hw Hg) Hin) as Hu.
+    unfold sunder in Hs. rewrite Hu in Hs. discriminate.
+  - unfold plan_final in Hin. cbn [andb] in Hin. rewrite app_nil_r in Hin.
+    eapply touched_plan_ok; [|exact Hin|exact Hs].
+    unfold plan_main. apply Forall_forall. intros [st op] Hso. apply in_flat_map in Hso.
+    destruct Hso as [st' [Hst Hop]]. apply in_map_iff in Hop. destruct Hop as [op' [E Hop]].
+    inversion E; subst. simpl.
+    pose proof (effects_direct_ok c st Hwf Hg (before_incl _ _ _ Hst)) as HF.
+    rewrite Forall_forall in HF. apply HF. exact Hop.
+Qed.
+
+(* C10_result *)
+Theorem result_ok_iff : forall c k s,
+  snd (generate c k s) = Ok <->
+  fails k (stages (diff_mode c s) (post c)) = false
+  /\ diff_mode c s && has_diff c (exec s (plan_main c (diff_mode c s) k)) = false.
+Proof.
+  intros c k s. unfold generate. cbn [snd].
+  destruct (fails k (stages (diff_mode c s) (post c))) eqn:Ef.
+  - destruct k as [f|]; [|discriminate Ef]. split; [discriminate | intros [H _]; discriminate].
+  - destruct (diff_mode c s && has_diff c (exec s (plan_main c (diff_mode c s) k))); split; auto;
+      try discriminate. intros [_ H]. discriminate.
+Qed.
+
+Theorem result_fail_iff : forall c k s f,
+  snd (generate c k s) = Fail f <-> k = Some f /\ fails k (stages (diff_mode c s) (post c)) = true.
+Proof.
+  intros c k s f. unfold generate. cbn [snd].
+  destruct (fails k (stages (diff_mode c s) (post c))) eqn:Ef.
+  - destruct k as [f'|]; [|discriminate Ef]. split.
+    + intro H. inversion H; subst. auto.
+    + intros [H _]. inversion H; subst. reflexivity.
+  - split.
+    + destruct (diff_mode c s && has_diff c (exec s (plan_main c (diff_mode c s) k))); discriminate.
+    + intros [_ H]. discriminate.
+Qed.
+
+(* ---------- refutations ---------- *)
+Lemma existsb_path_In : forall p l, existsb (path_eqb p) l = true -> In p l.
+Proof.
+  intros p l H. apply existsb_exists in H. destruct H as [x [Hin E]]. apply list_eqb_str_eq in E. subst. exact Hin.
+Qed.
+
+Lemma refuted_F10a :
+  wf_pkg cfg_F10a = false /\ wf_tmp cfg_F10a = true /\ guard_F10b cfg_F10a = true
+  /\ In (pR ++ [s_sentinel]) (touched fs0 (plan cfg_F10a None fs0))
+  /\ sunder (root cfg_F10a) (pR ++ [s_sentinel]) = true
+  /\ allowed cfg_F10a (pR ++ [s_sentinel]) = false
+  /\ lookup (pR ++ [s_sentinel]) (fst (generate cfg_F10a None fs0)) = None.
+Proof.
+  split; [vm_compute; reflexivity|]. split; [vm_compute; reflexivity|]. split; [vm_compute; reflexivity|].
+  split; [apply existsb_path_In; vm_compute; reflexivity|].
+  repeat split; vm_compute; reflexivity.
+Qed.
+
+Lemma refuted_F10b :
+  wf_pkg cfg_F10b = true /\ wf_tmp cfg_F10b = true /\ guard_F10b cfg_F10b = false
+  /\ force cfg_F10b = false /\ exists_b fs1 (out_dir cfg_F10b) = true
+  /\ restrict_root cfg_F10b (fst (generate cfg_F10b None fs1)) <> restrict_root cfg_F10b fs1
+  /\ In (pR ++ [s_ruff_cache]) (touched fs1 (plan cfg_F10b None fs1))
+  /\ allowed cfg_F10b (pR ++ [s_ruff_cache]) = false.
+Proof.
+  split; [vm_compute; reflexivity|]. split; [vm_compute; reflexivity|]. split; [vm_compute; reflexivity|].
+  split; [vm_compute; reflexivity|]. split; [vm_compute; reflexivity|].
+  split; [vm_compute; discriminate|].
+  split; [apply existsb_path_In; vm_compute; reflexivity | vm_compute; reflexivity].
+Qed.
+
+(* ---------- non-vacuity ---------- *)
+(* nested layout a.b.client with core a.core; existing tree with a locally edited client.py *)
+Definition s_b : str := [98].
+Definition cfg_ok : config :=
+  {| root := pR; tmp := pT; cwd := pB; out_pkg := [s_a; s_b; s_client]; core_pkg := Some [s_a; s_core];
+     force := false; post := true; tags := [s_pets]; models := [s_pet] |}.
+Definition fs_ok : fs :=
+  fs0 ++ [(pR ++ [s_a], Dir); (pR ++ [s_a; s_init], File 0); (pR ++ [s_a; s_b], Dir);
+          (pR ++ [s_a; s_b; s_client], Dir); (pR ++ [s_a; s_b; s_client; s_client_py], File 1);
+          (pR ++ [s_a; s_core], Dir); (pR ++ [s_a; s_core; s_config], File 0)].
+Lemma guard_nonvacuous :
+  wf_pkg cfg_ok = true /\ wf_tmp cfg_ok = true /\ guard_F10b cfg_ok = true
+  /\ exists_b fs_ok (out_dir cfg_ok) = true
+  /\ snd (generate cfg_ok None fs_ok) = DiffFound
+  /\ snd (generate cfg_ok (Some Models) fs_ok) = Fail Models
+  /\ (length (touched fs_ok (plan cfg_ok None fs_ok)) > 40)%nat
+  /\ lookup pT (fst (generate cfg_ok (Some Models) fs_ok)) = None.
+Proof. vm_compute. repeat split; auto; lia. Qed.
+(* the same configuration with force: 40+ paths are written under the root, all allowed *)
+Definition cfg_ok_force : config :=
+  {| root := pR; tmp := pT; cwd := pB; out_pkg := [s_a; s_b; s_client]; core_pkg := Some [s_a; s_core];
+     force := true; post := true; tags := [s_pets]; models := [s_pet] |}.
+Lemma guard_nonvacuous_force :
+  wf_pkg cfg_ok_force = true /\ guard_F10b cfg_ok_force = true
+  /\ snd (generate cfg_ok_force None fs_ok) = Ok
+  /\ (length (filter (sunder pR) (touched fs_ok (plan cfg_ok_force None fs_ok))) > 40)%nat
+  /\ lookup (pR ++ [s_sentinel]) (fst (generate cfg_ok_force None fs_ok)) = Some (File 1).
+Proof. vm_compute. repeat split; auto; lia. Qed.
